@@ -53,7 +53,7 @@ def num_close(text, want, float_format):
 
 class WorldC06(World):
     PROP = 'C06'
-    RUNS = {'quick': 1500, 'thorough': 30000}
+    RUNS = {'quick': 4000, 'thorough': 60000}
     WALL = {'quick': 50, 'thorough': 560}
     STATE_CHANGING = ('mkmodel', 'write_gas', 'write_surf', 'write_EA', 'write_T_flow', 'write_tube_mole')
     STATE_RULE = 'per path: (absent | undefined | which file kind it holds), number of models, writes so far bucket'
@@ -73,6 +73,7 @@ class WorldC06(World):
     TRIGGERS = {
         'C06-gas-reactants-surface-products': 'a reaction whose reactants are all gaseous while a product is a surface species',
     }
+    PROBE_TRIGGER = {'reactants-gas-products-surface': 'C06-gas-reactants-surface-products'}
     MAX_STEPS = 40
 
     # ------------------------------------------------------------------ gen
